@@ -444,6 +444,14 @@ def process_fn(src: str, src_file: str, it: rustscan.Item, dirs: List[Directive]
                     j = match_close(st, j)
                 j += 1
             c = match_close(st, j)
+            # the assumption attached to the region describes ONE particular text: if the region has changed the
+            # assumed contract is no longer justified -> undecided (never verified under a stale assumption)
+            exp = next((x for x in dirs if x.kind == 'region-text' and x.line > d.line), None)
+            if exp is not None:
+                def canon(t):
+                    return ''.join(tok.text for tok in sig(lex(t)))
+                if canon(src[a:st[c].end]) != canon('\n'.join(exp.payload)):
+                    raise Undecided('assumed region `%s` of %s no longer has the text its assumed contract was written for' % (pat, info.fn))
             edits.append(Edit(a, st[c].end, '\n'.join(d.payload), 'region:%s:%d' % (info.fn, d.line), 'D5'))
             drops.append('D5 assumed region `%s`' % pat)
     # --- D6 closure header annotation: `|x| body` -> `<header from the contract> { body }`
@@ -581,6 +589,18 @@ class Unit:
         def inc(mm):
             return open(os.path.join(base, mm.group(1))).read()
         text = re.sub(r'^//@@ include (\S+)[ \t]*$', inc, text, flags=re.M)
+        # `//@@ consts <file>`: every top-level `const` of that file (so that a constant a change introduces resolves)
+        def consts(mm):
+            path = os.path.join(self.repo, mm.group(1))
+            if not os.path.exists(path):
+                raise Undecided('lost anchor: file %s' % mm.group(1))
+            src = open(path).read()
+            out = []
+            for it in rustscan.scan_items(src):
+                if it.kind == 'const' and (':: const %s\n' % it.name) not in text and (':: const %s ' % it.name) not in text:
+                    out.append('//@ item %s :: const %s\n//@ end' % (mm.group(1), it.name))
+            return '\n'.join(out)
+        text = re.sub(r'^//@@ consts (\S+)[ \t]*$', consts, text, flags=re.M)
         self.template_text = text
         m = re.search(r'^//@@ state-fields:(.*)$', text, re.M)
         if m:
